@@ -18,6 +18,7 @@ A descriptor is a nested tuple of strings/ints only: hashable, orderable, JSON-a
     ("dcgeninh", e)   class Child(G[e]) with an own field
     ("dcinh", e)      Base{a: int = 1, b: e} <- Child{a: str = "s" (overridden), c: e}
     ("dcself", e)     Node{v: e, nxt: Optional["Node"] = None, kids: List["Node"] = []}
+    ("dcselft", e)    Node{v: e, nxt: Optional[typing.Self] = None, kids: List[typing.Self] = []}
     ("dcfwd", e)      Holder{x: "Later", y: e}; class Later defined after Holder (postponed evaluation)
 """
 from __future__ import annotations
@@ -174,6 +175,11 @@ class Ctx:
     """
 
     def __init__(self, mode="module", dc=None):
+        # typing caches parametrised generics by the *set* of a union's members: Tuple[Union[str, int], ...] created
+        # earlier in this process would be handed back for Tuple[Union[int, str], ...]. Every materialisation starts
+        # from empty typing caches so that the written member order is the one the library sees.
+        for cleanup in getattr(typing, "_cleanups", ()):
+            cleanup()
         self.mode = mode
         self.modname = f"vmc_syn_{os.getpid()}_{next(_ctx_counter)}"
         self.mod = types.ModuleType(self.modname)
@@ -340,7 +346,7 @@ def _hint(d, ctx):
         return _mk_td(d, ctx)
     if k == "dc":
         return _mk_dc(d, ctx)
-    if k in ("dcgen", "dcgeninh", "dcinh", "dcself", "dcfwd"):
+    if k in ("dcgen", "dcgeninh", "dcinh", "dcself", "dcselft", "dcfwd"):
         return _mk_special(d, ctx)
     raise ValueError(f"unknown descriptor {d!r}")
 
@@ -463,12 +469,17 @@ def _mk_dc(d, ctx):
             meta = f", metadata=field_options(alias='a{i}')"
             aliases[fname] = f"a{i}"
         elif alias_mode == "annotated":
-            h = typing.Annotated[h, BASE_NS["Alias"](f"a{i}")]
             aliases[fname] = f"a{i}"
         elif alias_mode == "config":
             aliases[fname] = f"a{i}"
+        elif alias_mode == "both":
+            # field metadata wins over Config.aliases (which names another key for the same field)
+            meta = f", metadata=field_options(alias='a{i}')"
+            aliases[fname] = f"a{i}"
         if kind == "none":
             h = typing.Optional[h]
+        if alias_mode == "annotated":
+            h = typing.Annotated[h, BASE_NS["Alias"](f"a{i}")]     # the alias annotates the whole field type
         hn = ctx.inject(h, "_h")
         if kind == "req":
             if meta:
@@ -486,6 +497,8 @@ def _mk_dc(d, ctx):
         kinds.append(kind)
     if alias_mode == "config":
         extra_cfg["aliases"] = repr(aliases)
+    elif alias_mode == "both":
+        extra_cfg["aliases"] = repr({fn: "c" + al[1:] for fn, al in aliases.items()})
     lines += _config_src(ctx, extra_cfg)
     if not fields and len(lines) == 2:
         lines.append("    pass")
@@ -530,6 +543,12 @@ def _mk_special(d, ctx):
             pass
         ctx.run(src)
         C = ctx.ns[f"N{n}"]
+        ctx.info[d] = dict(cls=C, kind=k)
+        return C
+    if k == "dcselft":
+        src = (f"@dataclass\nclass N{n}(DataClassDictMixin):\n    v: {hn}\n    nxt: Optional[typing.Self] = None\n"
+               f"    kids: List[typing.Self] = field(default_factory=list){cfg}\n")
+        C = ctx.execute(f"N{n}", src)
         ctx.info[d] = dict(cls=C, kind=k)
         return C
     if k == "dcfwd":
@@ -696,7 +715,7 @@ def values(d, ctx: Ctx, top=True):
         C = ctx.info[d]["cls"]
         vs = inner(d[1])
         return [C(b=vs[0]), C(b=vs[-1], a="t", c=vs[0])]
-    if k == "dcself":
+    if k in ("dcself", "dcselft"):
         C = ctx.info[d]["cls"]
         vs = inner(d[1])
         return [C(vs[0]), C(vs[0], C(vs[-1]), [C(vs[0]), C(vs[-1], None, [C(vs[0])])])]
@@ -807,7 +826,7 @@ def show(d):
 # ---------------------------------------------------------------------------------------
 WIRE_LISTY = set(SEQ1) | set(SET1) | {"tuple", "tupleu", "chain", "pep585list", "pep585tuple", "ntf", "nt"}
 WIRE_DICTY = {"dict", "mapping", "mutmapping", "ordered", "defaultdict", "mproxy", "counter", "td", "dc", "dcgen",
-              "dcgeninh", "dcinh", "dcself", "dcfwd", "pep585dict"}
+              "dcgeninh", "dcinh", "dcself", "dcselft", "dcfwd", "pep585dict"}
 
 
 def wire_kinds(d):
@@ -898,7 +917,7 @@ def wrappers(e, level="full"):
     out += [("dc", "mixin", ((e, "dflt"),)), ("dc", "mixin", ((STR, "req"), (e, "none"))),
             ("dc", "plain", ((INT, "req"), (e, "dflt"), (e, "none"))),
             ("dc", "mixin", ((("final", e), "req"),))]
-    out += [(sp, e) for sp in ("dcgen", "dcgeninh", "dcinh", "dcself", "dcfwd")]
+    out += [(sp, e) for sp in ("dcgen", "dcgeninh", "dcinh", "dcself", "dcselft", "dcfwd")]
     return out
 
 
